@@ -83,7 +83,7 @@ func hessPart(s *S, ilo, ihi int) M {
 }
 
 func genDgehrd(g *vlib.G) {
-	lim := p3(g, 6, 8, 11)
+	lim := p3(g, 6, 10, 12)
 	profs := profSet(g, 5)
 	type cfg struct {
 		n, ilo, ihi int
@@ -366,7 +366,7 @@ func genDhseqr(g *vlib.G) {
 		fams []family
 	}
 	var plan []cfg
-	lim := p3(g, 6, 8, 11)
+	lim := p3(g, 6, 10, 12)
 	profs := profSet(g, 5)
 	for n := 0; n <= lim; n++ {
 		for _, p := range profs {
@@ -565,7 +565,7 @@ func genDgeev(g *vlib.G) {
 		fams []family
 	}
 	var plan []cfg
-	lim := p3(g, 6, 8, 11)
+	lim := p3(g, 6, 10, 12)
 	profs := profSet(g, 5)
 	for n := 0; n <= lim; n++ {
 		for _, p := range profs {
